@@ -268,6 +268,19 @@ func (fr *frame) runBlock() {
 				panic(inconclusive{fmt.Sprintf("FieldAddr on %T (%v) in %s", *p, in.X.Type(), fr.fn)})
 			}
 			fr.env[in] = &st[in.Field]
+			if e.race.names != nil {
+				if _, ok := e.race.names[&st[in.Field]]; !ok {
+					if pt, ok := in.X.Type().Underlying().(*types.Pointer); ok {
+						if stt, ok := pt.Elem().Underlying().(*types.Struct); ok {
+							tn := pt.Elem().String()
+							if i := strings.LastIndex(tn, "/"); i >= 0 {
+								tn = tn[i+1:]
+							}
+							e.race.names[&st[in.Field]] = tn + "." + stt.Field(in.Field).Name()
+						}
+					}
+				}
+			}
 		case *ssa.IndexAddr:
 			fr.env[in] = e.indexAddr(fr.get(in.X), fr.get(in.Index))
 		case *ssa.Index:
@@ -303,6 +316,9 @@ func (fr *frame) runBlock() {
 			p := fr.get(in.Addr).(*value)
 			if p == nil {
 				panic(goPanic{"runtime error: invalid memory address or nil pointer dereference"})
+			}
+			if e.race.on {
+				e.raceStore(p, fr.fn)
 			}
 			storeInto(p, fr.get(in.Val))
 		case *ssa.Send:
@@ -639,6 +655,9 @@ func (e *Exec) unop(in *ssa.UnOp, x value) value {
 		p := x.(*value)
 		if p == nil {
 			panic(goPanic{"runtime error: invalid memory address or nil pointer dereference"})
+		}
+		if e.race.on {
+			e.raceLoad(p, in.Parent())
 		}
 		return copyVal(*p)
 	case token.NOT:
